@@ -1,6 +1,7 @@
 from itertools import count
 import math
 import networkx as nx
+import numpy as np
 import flowpaths.utils as utils
 # NOTE: Do NOT import flowpaths.stdigraph at module import time to avoid a circular
 # import chain: stdag -> graphutils -> stdigraph -> stdag. We instead lazily import
@@ -344,17 +345,18 @@ def check_flow_conservation(G: nx.DiGraph, flow_attr) -> bool:
         if G.out_degree(v) == 0 or G.in_degree(v) == 0:
             continue
 
+        # (the sums are taken over plain Python numbers: numpy integers of a small width wrap around, 200 + 100 == 44 as uint8)
         out_flow = 0
         for x, y, data in G.out_edges(v, data=True):
             if data.get(flow_attr) is None:
                 return False
-            out_flow += data[flow_attr]
+            out_flow += plain_number(data[flow_attr])
 
         in_flow = 0
         for x, y, data in G.in_edges(v, data=True):
             if data.get(flow_attr) is None:
                 return False
-            in_flow += data[flow_attr]
+            in_flow += plain_number(data[flow_attr])
 
         # Integer flows are compared exactly; float sums are accumulated in adjacency order and may differ in the last bits
         if isinstance(out_flow, int) and isinstance(in_flow, int):
@@ -364,6 +366,14 @@ def check_flow_conservation(G: nx.DiGraph, flow_attr) -> bool:
             return False
 
     return True
+
+def plain_number(value):
+    """
+    Returns a numpy scalar (or 0-dimensional array) as the Python number it stands for, and everything else unchanged.
+    """
+    if isinstance(value, np.generic) or (isinstance(value, np.ndarray) and value.ndim == 0):
+        return value.item()
+    return value
 
 def max_occurrence(seq, paths_in_DAG, edge_lengths: dict = {}) -> int:
     """
